@@ -1,7 +1,7 @@
 (* Properties/C11.v — distances and paths are valid walks of minimal length (C11).
    spec_C11 compares every reported distance with [sd] over the reported parent links and checks
    every reported path link by link; these theorems say what [sd] is. *)
-From HpoV Require Import Gen.Consts Model.Base Model.Group Model.Onto Model.Query Run.World Run.C01 Run.C11 Proofs.C11P Proofs.ClosureP Proofs.DistP Proofs.DistTermP Proofs.PathTermP Proofs.QgoodP Model.Script.
+From HpoV Require Import Gen.Consts Model.Base Model.Group Model.Onto Model.Query Run.World Run.C01 Run.C11 Proofs.C11P Proofs.ClosureP Proofs.DistP Proofs.DistTermP Proofs.PathTermP Proofs.QgoodP Model.Script Proofs.AllPathsP.
 
 Theorem C11_distance_is_a_chain_length : forall ts b fuel a d, sd fuel ts a b = Some d ->
   exists l, is_chain ts a l = true /\ last l a = b /\ Nlen l = d.
@@ -94,6 +94,10 @@ Theorem C11_model_term_path_is_shortest : forall o (G : qgood o) ta tb l,
   forall c n1 n2, chain (o_arena o) (t_id ta) n1 c -> chain (o_arena o) (t_id tb) n2 c -> (length l <= n1 + n2)%nat.
 Proof. exact path_term_minimal. Qed.
 
+(* ... and of every [constructed] ontology (Proofs/AllPathsP.v: every public construction path) *)
+Theorem C11_constructed_ontologies_are_qgood : forall icf o, constructed icf o -> qgood o.
+Proof. exact constructed_qgood. Qed.
+
 Print Assumptions C11_distance_is_a_chain_length.
 Print Assumptions C11_distance_is_minimal.
 Print Assumptions C11_chain_is_walk.
@@ -110,3 +114,4 @@ Print Assumptions C11_model_term_distance_symmetric.
 Print Assumptions C11_model_term_path_is_a_walk.
 Print Assumptions C11_model_term_path_is_shortest.
 Print Assumptions C11_builder_ontologies_are_qgood.
+Print Assumptions C11_constructed_ontologies_are_qgood.
